@@ -215,7 +215,7 @@ def feedCache (region : Bytes) (src : DataSess) (cb : Option Bool) (st : Store) 
   match readRegion src.p cb createProc { st := st, c := c } region start stop full with
   | .ok s => (s.st, .ok s.c)
   | .error (.halted s) => (s.st, .error (match s.failed with | some f => wrapErr "WriteOut" f | none => .panic))
-  | .error .corrupt => (st, .error (.err "CorruptMetaSection"))
+  | .error (.corrupt s) => (s.st, .error (.err "CorruptMetaSection"))      -- what was written stays written
   | .error .panic => (st, .error .panic)
 
 /-- `DownSampledData::create` -/
@@ -280,11 +280,14 @@ def cacheOpen (dir : Dir) (B : Nat) (src : DataSess) (cb : Option Bool) : Dir ×
       | .error f, _ => (dir, .error f)
       | _, .error f => (dir, .error f)
 
-/-- `DownSampledData::open_or_create` -/
+/-- `DownSampledData::open_or_create` (after the fix: a cache cut off inside its own file
+header is removed, with its index, and created again) -/
 def cacheOpenOrCreate (dir : Dir) (B : Nat) (src : DataSess) (cb : Option Bool) : Dir × R CacheSess :=
-  match cacheOpen dir B src cb with
-  | (_, .error (.err "NotFound")) => cacheCreate dir B src cb
-  | r => r
+  match fileOpenExisting (dir.cache B).data with
+  | .error (.err "NotFound") => cacheCreate dir B src cb
+  | .error (.err "UnexpectedEof") =>
+    cacheCreate (dir.setCache B { dir.cache B with data := none, index := none }) B src cb
+  | _ => cacheOpen dir B src cb
 
 def openCaches (create : Bool) (dir : Dir) (src : DataSess) (cb : Option Bool) :
     List Nat → List CacheSess → Dir × R (List CacheSess)
